@@ -1,4 +1,4 @@
-import Nstd.Variant.DeepAccess
+import Nstd.Variant.DeepSlots
 /-
   Operations on a held cell of the deep model: the result relation `CellStep`, sources, and the
   leaf operations covered by the deep refinement theorem.
@@ -270,8 +270,8 @@ theorem leaf_push (ds : DblSem) {h vars e g c} (rd : Nat → Cell) (hd : Held h 
     (src : Src) (hs : SrcOk rd vars src) (f : Nat) (hf : liveCount h + 1 < f) :
     ∃ h' c' g', withAccess f ds h c (seqKind isArr) (fun s1 p =>
         match p, isArr with
-        | .list cs, false => let (s2, c') := srcCopy rd s1 src; some (s2, .list (m.cells cs c'))
-        | .array cs, true => let (s2, c') := srcCopy rd s1 src; some (s2, .array (m.cells cs c'))
+        | .list cs, false => let (s2, c') := srcCopy rd s1 src; some (s2, .list (m.cells cs c'), [])
+        | .array cs, true => let (s2, c') := srcCopy rd s1 src; some (s2, .array (m.cells cs c'), [])
         | _, _ => none) = some (h', c') ∧
       CellStep h vars e g c (seqVal isArr (m.vals (seqOf isArr (absCell g c)) (srcVal g vars src))) 2 h' c' g' := by
   have hk : isKind (seqKind isArr) := by cases isArr <;> simp [seqKind, isKind]
@@ -338,7 +338,7 @@ theorem leaf_push (ds : DblSem) {h vars e g c} (rd : Nat → Cell) (hd : Held h 
   refine ⟨setPay (srcCopy rd h1 src).1 b (seqPay isArr (m.cells cs (srcCopy rd h1 src).2)), .ptr b,
     upd g2 b (absPay g2 (seqPay isArr (m.cells cs (srcCopy rd h1 src).2))), ?_, i3.congr ?_, ?_, (by intro z hz; cases hz), ?_, ?_, ?_, ?_⟩
   · simp only [withAccess, r1, hb, hpay]
-    cases isArr <;> simp [seqPay]
+    cases isArr <;> simp [seqPay, releaseAll]
   · intro x
     rw [hnewcells, Ins.cnt, ep2, hcells]
     show e x - cellCnt c x + cellCnt (.ptr b) x + cellCnt _ x + cntCells cs x - (cntCells cs x + cellCnt _ x) = _
@@ -393,5 +393,368 @@ theorem leaf_push (ds : DblSem) {h vars e g c} (rd : Nat → Cell) (hd : Held h 
       · subst ex; simp [hb2]
       · simp [upd_other _ _ _ _ ex]
     rw [hl]; have := cp.live; have := a.live; omega
+
+end Nstd.Variant.Deep
+
+namespace Nstd.Variant.Deep
+open Nstd.Variant
+
+/-! ### a general payload edit after the accessor: new cells come in, dead cells go out -/
+
+theorem edit_cellstep (ds : DblSem) {h vars e g c} (hd : Held h vars e g c) (k : Nat) {h1 : Heap} {b : Nat} {g1 : Nat → Val}
+    (a : Accessed ds h vars e g c k h1 b g1) (blk : Block) (hb : h1.heap b = some blk) (href : blk.ref = 1)
+    (h2 : Heap) (g2 : Nat → Val) (news : List Cell)
+    (i2 : DInv h2 vars (fun x => e x - cellCnt c x + cellCnt (.ptr b) x + cntCells news x) g2)
+    (hkeep : ∀ x blk0, h1.heap x = some blk0 → ∃ blk', h2.heap x = some blk' ∧ blk'.pay = blk0.pay)
+    (hsub : PaySubE h1 h2) (hg2 : ∀ x, x < h1.next → g2 x = g1 x)
+    (hn2a : h1.next ≤ h2.next) (hn2b : h2.next ≤ h1.next + 1) (hl2 : liveCount h2 ≤ liveCount h1 + 1)
+    (hnews_ok : ∀ d ∈ news, ∀ z, d = .inl z → z.isBoxed = false) (hnews_b : cntCells news b = 0)
+    (p' : Pay) (dead : List Cell)
+    (H : ∀ x, cntCells p'.cells x + cntCells dead x = cntCells blk.pay.cells x + cntCells news x)
+    (hmem : ∀ d ∈ p'.cells, d ∈ blk.pay.cells ∨ d ∈ news)
+    (f : Nat) (hf : liveCount h + 2 < f) :
+    ∃ h4, releaseAll f (setPay h2 b p') dead = some h4 ∧
+      CellStep h vars e g c (absPay g2 p') 2 h4 (.ptr b) (upd g2 b (absPay g2 p')) := by
+  have i1 := a.inv
+  obtain ⟨blk2, hb2, ep2⟩ := hkeep b blk hb
+  have hnostore1 := no_store_of_zero i1 b a.sz
+  have hs2 : stored h2.heap h2.next b = 0 := by
+    apply stored_zero
+    intro j kk hj hm
+    rcases hsub j kk hj with ⟨k1, hk1, ek⟩ | hemp
+    · rw [ek] at hm; exact hnostore1 j k1 hk1 hm
+    · rw [hemp] at hm; cases hm
+  have hold_b : cntCells blk.pay.cells b = 0 := by
+    cases hz : cntCells blk.pay.cells b with
+    | zero => rfl
+    | succ n => exact absurd (mem_of_cntCells_pos _ _ (by omega)) (hnostore1 b blk hb)
+  have hcok : ∀ d ∈ p'.cells, CellOk h2 d := by
+    intro d hdm
+    rcases hmem d hdm with hin | hin
+    · have hok1 := stored_cells_ok i1 b blk hb d hin
+      refine ⟨hok1.1, ?_⟩
+      intro t ht
+      obtain ⟨k1, hk1⟩ := hok1.2 t ht
+      obtain ⟨k2, hk2, _⟩ := hkeep t k1 hk1
+      exact ⟨k2, hk2⟩
+    · refine ⟨hnews_ok d hin, ?_⟩
+      intro t ht
+      have := cellCnt_le_of_mem news d t hin
+      rw [ht] at this; simp [cellCnt_ptr] at this
+      exact live_of_pending i2 t (by show 1 ≤ _ + cntCells news t; omega)
+  have i3 := dinv_setPay i2 b blk2 hb2 a.hz hs2 p' hcok
+    (by intro x; have := H x; rw [ep2]; show _ ≤ _ + cntCells news x + _; omega)
+    (by have := H b; omega)
+  have hl3 : liveCount (setPay h2 b p') = liveCount h2 := by
+    apply liveCount_sameLive
+    refine ⟨by simp [setPay, hb2], ?_⟩
+    intro x
+    simp only [setPay, hb2]
+    by_cases ex : x = b
+    · subst ex; simp [hb2]
+    · simp [upd_other _ _ _ _ ex]
+  have hn3 : (setPay h2 b p').next = h2.next := by simp [setPay, hb2]
+  have i3' : DInv (setPay h2 b p') vars (fun x => e x - cellCnt c x + cellCnt (.ptr b) x + cntCells dead x)
+      (upd g2 b (absPay g2 p')) := i3.congr (by
+    intro x; have := H x; rw [ep2]
+    show e x - cellCnt c x + cellCnt (.ptr b) x + cntCells news x + cntCells blk.pay.cells x - cntCells p'.cells x = _
+    omega)
+  obtain ⟨h4, r4, i4, s4⟩ := dinv_releaseAll f dead _ _ i3' (by intro x; show _ ≤ _ + cntCells dead x; omega)
+    (by rw [hl3]; have := a.live; omega)
+  refine ⟨h4, r4, i4.congr (by intro x; show _ + cntCells dead x - cntCells dead x = _; omega), (by simp [absCell]),
+    (by intro z hz; cases hz), ?_, ?_, ?_, ?_⟩
+  · intro x hx hprot
+    have hxl : x < h.next := lt_next_of_ne hd.inv x hx
+    have hxb : x ≠ b := by
+      intro exb; subst exb
+      have hc1 := i1.cnt x blk hb
+      rw [a.hz, a.sz, href] at hc1
+      simp only [cellCnt_ptr, if_true] at hc1
+      have := hd.pend x
+      rcases hprot with hp | hp
+      · have := a.hz; omega
+      · omega
+    rw [upd_other _ _ _ _ hxb, hg2 x (by have := a.next_le; omega), a.frame x hxl]
+  · rw [s4.next, hn3]; have := a.next_le; omega
+  · rw [s4.next, hn3]; have := a.next_ge; omega
+  · have := s4.live; rw [hl3] at this; have := a.live; omega
+
+/-- the edit without a source -/
+theorem edit_plain (ds : DblSem) {h vars e g c} (hd : Held h vars e g c) (k : Nat) {h1 : Heap} {b : Nat} {g1 : Nat → Val}
+    (a : Accessed ds h vars e g c k h1 b g1) (blk : Block) (hb : h1.heap b = some blk) (href : blk.ref = 1)
+    (p' : Pay) (dead : List Cell)
+    (H : ∀ x, cntCells p'.cells x + cntCells dead x = cntCells blk.pay.cells x)
+    (hmem : ∀ d ∈ p'.cells, d ∈ blk.pay.cells) (f : Nat) (hf : liveCount h + 2 < f) :
+    ∃ h4, releaseAll f (setPay h1 b p') dead = some h4 ∧
+      CellStep h vars e g c (absPay g1 p') 2 h4 (.ptr b) (upd g1 b (absPay g1 p')) :=
+  edit_cellstep ds hd k a blk hb href h1 g1 [] (a.inv.congr (by intro x; simp [cntCells_nil]))
+    (fun x blk0 hx => ⟨blk0, hx, rfl⟩) (fun x blk' hx => Or.inl ⟨blk', hx, rfl⟩) (fun _ _ => rfl)
+    (Nat.le_refl _) (by omega) (by omega) (by intro d hd'; cases hd') rfl p' dead
+    (by intro x; rw [H x]; simp [cntCells_nil]) (fun d hd' => Or.inl (hmem d hd')) f hf
+
+theorem cnt_eraseIdx (cs : List Cell) (i : Nat) (old : Cell) (x : Nat) (hi : cs[i]? = some old) :
+    cntCells (cs.eraseIdx i) x + cellCnt old x = cntCells cs x := by
+  induction cs generalizing i with
+  | nil => simp at hi
+  | cons d t ih =>
+    cases i with
+    | zero => simp at hi; subst hi; simp only [List.eraseIdx_cons_zero, cntCells_cons]; omega
+    | succ n =>
+      simp at hi
+      simp only [List.eraseIdx_cons_succ, cntCells_cons]
+      have := ih n hi; omega
+
+theorem map_eraseIdx' {α β} (f : α → β) (l : List α) (i : Nat) : (l.eraseIdx i).map f = (l.map f).eraseIdx i := by
+  induction l generalizing i with
+  | nil => rfl
+  | cons a t ih =>
+    cases i with
+    | zero => rfl
+    | succ n => simp [List.eraseIdx_cons_succ, ih]
+
+/-- `remove` of item `i` of a list / array -/
+theorem leaf_remove (ds : DblSem) {h vars e g c} (hd : Held h vars e g c) (isArr : Bool) (i : Nat)
+    (hi : i < (seqOf isArr (absCell g c)).length) (f : Nat) (hf : liveCount h + 2 < f) :
+    ∃ h' c' g', withAccess f ds h c (seqKind isArr) (fun s1 p =>
+        match p, isArr with
+        | .list cs, false => (match cs[i]? with | some old => some (s1, .list (cs.eraseIdx i), [old]) | none => none)
+        | .array cs, true => (match cs[i]? with | some old => some (s1, .array (cs.eraseIdx i), [old]) | none => none)
+        | _, _ => none) = some (h', c') ∧
+      CellStep h vars e g c (seqVal isArr ((seqOf isArr (absCell g c)).eraseIdx i)) 2 h' c' g' := by
+  have hk : isKind (seqKind isArr) := by cases isArr <;> simp [seqKind, isKind]
+  obtain ⟨h1, b, g1, r1, a⟩ := dinv_access ds hd (seqKind isArr) hk f (by omega)
+  obtain ⟨blk, hb, href⟩ := a.blk
+  have hcons := a.inv.cons b blk hb
+  rw [a.val] at hcons
+  have hpay : ∃ cs, blk.pay = seqPay isArr cs ∧ cs.map (absCell g1) = seqOf isArr (absCell g c) := by
+    cases isArr
+    · simp only [seqKind, coerce, seqPay, seqOf] at hcons ⊢
+      cases hp : blk.pay <;> rw [hp] at hcons <;> simp [absPay] at hcons
+      exact ⟨_, rfl, hcons.symm⟩
+    · simp only [seqKind, coerce, seqPay, seqOf] at hcons ⊢
+      cases hp : blk.pay <;> rw [hp] at hcons <;> simp [absPay] at hcons
+      exact ⟨_, rfl, hcons.symm⟩
+  obtain ⟨cs, hpay, hvals⟩ := hpay
+  have hcells : blk.pay.cells = cs := by rw [hpay]; cases isArr <;> rfl
+  have hlen : i < cs.length := by rw [← hvals] at hi; simpa using hi
+  have hold : cs[i]? = some cs[i] := by simp [hlen]
+  obtain ⟨h4, r4, st⟩ := edit_plain ds hd (seqKind isArr) a blk hb href (seqPay isArr (cs.eraseIdx i)) [cs[i]]
+    (by intro x; rw [hcells]
+        have : (seqPay isArr (cs.eraseIdx i)).cells = cs.eraseIdx i := by cases isArr <;> rfl
+        rw [this, cntCells_cons, cntCells_nil]; have := cnt_eraseIdx cs i _ x hold; omega)
+    (by intro d hdm
+        have : (seqPay isArr (cs.eraseIdx i)).cells = cs.eraseIdx i := by cases isArr <;> rfl
+        rw [this] at hdm; rw [hcells]; exact List.mem_of_mem_eraseIdx hdm) f hf
+  refine ⟨h4, .ptr b, upd g1 b (absPay g1 (seqPay isArr (cs.eraseIdx i))), ?_, ?_⟩
+  · simp only [withAccess, r1, hb, hpay]
+    cases isArr
+    · simp only [seqPay, Bool.false_eq_true, if_false] at r4 ⊢; simp [hold, r4]
+    · simp only [seqPay, if_true] at r4 ⊢; simp [hold, r4]
+  · have hv : absPay g1 (seqPay isArr (cs.eraseIdx i)) = seqVal isArr ((seqOf isArr (absCell g c)).eraseIdx i) := by
+      rw [← hvals, ← map_eraseIdx']
+      cases isArr <;> simp [seqPay, seqVal, absPay]
+    exact ⟨st.inv, st.val.trans hv, st.ok, st.frame, st.next_le, st.next_ge, st.live⟩
+
+/-! ### map insert / remove, string append -/
+
+theorem mapInsert_abs (g : Nat → Val) (m : List (Str × Cell)) (k : Str) (c : Cell) :
+    (match mapGet m k with
+     | some _ => (mapPut m k c).map (fun p => (p.1, absCell g p.2))
+     | none => (m ++ [(k, c)]).map (fun p => (p.1, absCell g p.2))) =
+      mapInsert (m.map (fun p => (p.1, absCell g p.2))) k (absCell g c) := by
+  induction m with
+  | nil => simp [mapGet, mapInsert]
+  | cons q t ih =>
+    obtain ⟨k', d⟩ := q
+    simp only [mapGet, List.map_cons, mapInsert]
+    by_cases hk : (k' == k) = true
+    · simp [hk, mapPut]
+    · have hk' : (k' == k) = false := by simpa using hk
+      simp only [hk', Bool.false_eq_true, if_false]
+      cases hg : mapGet t k with
+      | none => simp only [hg] at ih ⊢; simp [ih]
+      | some o => simp only [hg] at ih ⊢; simp [mapPut, hk', ih]
+
+theorem mapRemove_abs (g : Nat → Val) (m : List (Str × Cell)) (k : Str) :
+    (mapDel m k).map (fun p => (p.1, absCell g p.2)) = mapRemove (m.map (fun p => (p.1, absCell g p.2))) k := by
+  induction m with
+  | nil => rfl
+  | cons q t ih =>
+    obtain ⟨k', d⟩ := q
+    simp only [mapDel, List.map_cons, mapRemove]
+    by_cases hk : (k' == k) = true
+    · simp [hk]
+    · have hk' : (k' == k) = false := by simpa using hk
+      simp [hk', ih]
+
+theorem cnt_mapDel (m : List (Str × Cell)) (k : Str) (x : Nat) :
+    cntCells ((mapDel m k).map (·.2)) x + cntCells (match mapGet m k with | some old => [old] | none => []) x
+      = cntCells (m.map (·.2)) x := by
+  induction m with
+  | nil => simp [mapDel, mapGet, cntCells_nil]
+  | cons q t ih =>
+    obtain ⟨k', d⟩ := q
+    simp only [mapDel, mapGet]
+    by_cases hk : (k' == k) = true
+    · simp [hk, cntCells_cons, cntCells_nil]; omega
+    · have hk' : (k' == k) = false := by simpa using hk
+      simp only [hk', Bool.false_eq_true, if_false, List.map_cons, cntCells_cons]
+      omega
+
+theorem mem_mapDel (m : List (Str × Cell)) (k : Str) (d : Cell) (h : d ∈ (mapDel m k).map (·.2)) : d ∈ m.map (·.2) := by
+  induction m with
+  | nil => simp [mapDel] at h
+  | cons q t ih =>
+    obtain ⟨k', e⟩ := q
+    simp only [mapDel] at h
+    by_cases hk : (k' == k) = true
+    · simp only [hk, if_true] at h; simp only [List.map_cons, List.mem_cons]; exact Or.inr h
+    · have hk' : (k' == k) = false := by simpa using hk
+      simp only [hk', Bool.false_eq_true, if_false, List.map_cons, List.mem_cons] at h ⊢
+      rcases h with h | h
+      · exact Or.inl h
+      · exact Or.inr (ih h)
+
+/-- the payload of an accessed block of kind 7 is a map holding the coerced value -/
+theorem accessed_map (ds : DblSem) {h vars e g c h1 b g1} (a : Accessed ds h vars e g c 7 h1 b g1) (blk : Block)
+    (hb : h1.heap b = some blk) :
+    ∃ m, blk.pay = .map m ∧ m.map (fun p => (p.1, absCell g1 p.2)) = (absCell g c).asMap := by
+  have hcons := a.inv.cons b blk hb
+  rw [a.val] at hcons
+  simp only [coerce, if_true] at hcons
+  cases hp : blk.pay <;> rw [hp] at hcons <;> simp [absPay] at hcons
+  exact ⟨_, rfl, hcons.symm⟩
+
+theorem leaf_mrem (ds : DblSem) {h vars e g c} (hd : Held h vars e g c) (k : Str) (f : Nat) (hf : liveCount h + 2 < f) :
+    ∃ h' c' g', withAccess f ds h c 7 (fun s1 p =>
+        match p with
+        | .map m => some (s1, .map (mapDel m k), (match mapGet m k with | some old => [old] | none => []))
+        | _ => none) = some (h', c') ∧
+      CellStep h vars e g c (.map (mapRemove (absCell g c).asMap k)) 2 h' c' g' := by
+  obtain ⟨h1, b, g1, r1, a⟩ := dinv_access ds hd 7 (by simp [isKind]) f (by omega)
+  obtain ⟨blk, hb, href⟩ := a.blk
+  obtain ⟨m, hpay, hvals⟩ := accessed_map ds a blk hb
+  obtain ⟨h4, r4, st⟩ := edit_plain ds hd 7 a blk hb href (.map (mapDel m k)) (match mapGet m k with | some old => [old] | none => [])
+    (by intro x; rw [hpay]; exact cnt_mapDel m k x)
+    (by intro d hdm; rw [hpay]; exact mem_mapDel m k d hdm) f hf
+  refine ⟨h4, .ptr b, upd g1 b (absPay g1 (.map (mapDel m k))), by simp only [withAccess, r1, hb, hpay, r4, Option.map], ?_⟩
+  have hv : absPay g1 (.map (mapDel m k)) = .map (mapRemove (absCell g c).asMap k) := by
+    simp only [absPay, mapRemove_abs, hvals]
+  exact ⟨st.inv, st.val.trans hv, st.ok, st.frame, st.next_le, st.next_ge, st.live⟩
+
+theorem leaf_sapp (ds : DblSem) {h vars e g c} (hd : Held h vars e g c) (t : Str) (f : Nat) (hf : liveCount h + 2 < f) :
+    ∃ h' c' g', withAccess f ds h c 10 (fun s1 p =>
+        match p with
+        | .str u => some (s1, .str (u ++ t), [])
+        | _ => none) = some (h', c') ∧
+      CellStep h vars e g c (.str ((absCell g c).toStr ds ++ t)) 2 h' c' g' := by
+  obtain ⟨h1, b, g1, r1, a⟩ := dinv_access ds hd 10 (by simp [isKind]) f (by omega)
+  obtain ⟨blk, hb, href⟩ := a.blk
+  have hcons := a.inv.cons b blk hb
+  rw [a.val] at hcons
+  have hpay : blk.pay = .str ((absCell g c).toStr ds) := by
+    simp only [coerce] at hcons
+    cases hp : blk.pay <;> rw [hp] at hcons <;> simp [absPay] at hcons
+    rw [hcons]
+  obtain ⟨h4, r4, st⟩ := edit_plain ds hd 10 a blk hb href (.str ((absCell g c).toStr ds ++ t)) []
+    (by intro x; rw [hpay]; rfl) (by intro d hdm; simp [Pay.cells] at hdm) f hf
+  exact ⟨h4, .ptr b, upd g1 b (absPay g1 (.str ((absCell g c).toStr ds ++ t))), by simp only [withAccess, r1, hb, hpay, r4, Option.map], st⟩
+
+theorem leaf_mput (ds : DblSem) {h vars e g c} (rd : Nat → Cell) (hd : Held h vars e g c) (k : Str) (src : Src)
+    (hs : SrcOk rd vars src) (f : Nat) (hf : liveCount h + 2 < f) :
+    ∃ h' c' g', withAccess f ds h c 7 (fun s1 p =>
+        match p with
+        | .map m =>
+          let (s2, c') := srcCopy rd s1 src
+          (match mapGet m k with
+           | some old => some (s2, .map (mapPut m k c'), [old])
+           | none => some (s2, .map (m ++ [(k, c')]), []))
+        | _ => none) = some (h', c') ∧
+      CellStep h vars e g c (.map (mapInsert (absCell g c).asMap k (srcVal g vars src))) 2 h' c' g' := by
+  obtain ⟨h1, b, g1, r1, a⟩ := dinv_access ds hd 7 (by simp [isKind]) f (by omega)
+  obtain ⟨blk, hb, href⟩ := a.blk
+  obtain ⟨m, hpay, hvals⟩ := accessed_map ds a blk hb
+  have i1 := a.inv
+  obtain ⟨g2, cp⟩ := dinv_srcCopy rd i1 src hs
+  have hc'_b : cellCnt (srcCopy rd h1 src).2 b = 0 := by
+    cases hcc : (srcCopy rd h1 src).2 with
+    | null => rfl
+    | inl z => rfl
+    | ptr t =>
+      by_cases et : t = b
+      · subst et
+        rcases cp.tgt t hcc with h1' | h1'
+        · have := a.hz; omega
+        · rw [hb] at h1'; cases h1'
+      · simp [cellCnt_ptr, et]
+  -- new payload and dead cells
+  let p' : Pay := match mapGet m k with | some _ => .map (mapPut m k (srcCopy rd h1 src).2) | none => .map (m ++ [(k, (srcCopy rd h1 src).2)])
+  let dead : List Cell := match mapGet m k with | some old => [old] | none => []
+  have hcellsp : blk.pay.cells = m.map (·.2) := by rw [hpay]; rfl
+  obtain ⟨h4, r4, st⟩ := edit_cellstep ds hd 7 a blk hb href (srcCopy rd h1 src).1 g2 [(srcCopy rd h1 src).2]
+    (cp.inv.congr (by intro x; simp [cntCells_cons, cntCells_nil])) cp.keep cp.sub cp.frame cp.next_le cp.next_ge cp.live
+    (by intro d hdm z hz; simp at hdm; subst hdm; exact cp.ok z hz)
+    (by simp [cntCells_cons, cntCells_nil, hc'_b]) p' dead
+    (by
+      intro x
+      rw [hcellsp]
+      simp only [p', dead]
+      cases hg : mapGet m k with
+      | some old =>
+        simp only [Pay.cells, cntCells_cons, cntCells_nil]
+        have := cnt_mapPut m k (srcCopy rd h1 src).2 old x hg; omega
+      | none =>
+        simp only [Pay.cells, List.map_append, List.map_cons, List.map_nil, cntCells_append, cntCells_cons, cntCells_nil]
+        omega)
+    (by
+      intro d hdm
+      rw [hcellsp]
+      simp only [p'] at hdm
+      cases hg : mapGet m k with
+      | some old =>
+        rw [hg] at hdm
+        rcases mem_mapPut m k _ d hdm with h1' | h1'
+        · exact Or.inl h1'
+        · exact Or.inr (by simp [h1'])
+      | none =>
+        rw [hg] at hdm
+        simp only [Pay.cells, List.map_append, List.map_cons, List.map_nil, List.mem_append, List.mem_singleton] at hdm
+        rcases hdm with h1' | h1'
+        · exact Or.inl h1'
+        · exact Or.inr (by simp [h1'])) f hf
+  refine ⟨h4, .ptr b, upd g2 b (absPay g2 p'), ?_, ?_⟩
+  · simp only [withAccess, r1, hb, hpay]
+    simp only [p', dead] at r4
+    cases hg : mapGet m k with
+    | some old => rw [hg] at r4; simp only [r4, Option.map]
+    | none => rw [hg] at r4; simp only [r4, Option.map]
+  · have hsv : absCell g2 (srcCopy rd h1 src).2 = srcVal g vars src := by
+      rw [cp.val]
+      simp only [srcVal]
+      cases src with
+      | lit x => rfl
+      | var w =>
+        simp only [Src.eval]
+        apply absCell_congr
+        intro t ht
+        obtain ⟨k0, hk0⟩ := hd.inv.live w t ht
+        exact a.frame t (hd.inv.lt_next t k0 hk0)
+    have hmapeq : m.map (fun p => (p.1, absCell g2 p.2)) = m.map (fun p => (p.1, absCell g1 p.2)) := by
+      apply List.map_congr_left
+      intro q hq
+      have : absCell g2 q.2 = absCell g1 q.2 := by
+        apply absCell_congr
+        intro t ht
+        have hqm : q.2 ∈ blk.pay.cells := by rw [hcellsp]; exact List.mem_map.2 ⟨q, hq, rfl⟩
+        obtain ⟨k1, hk1⟩ := (stored_cells_ok i1 b blk hb q.2 hqm).2 t ht
+        exact cp.frame t (i1.lt_next t k1 hk1)
+      rw [this]
+    have hv : absPay g2 p' = .map (mapInsert (absCell g c).asMap k (srcVal g vars src)) := by
+      have := mapInsert_abs g2 m k (srcCopy rd h1 src).2
+      simp only [p']
+      cases hg : mapGet m k with
+      | some old => rw [hg] at this; simp only [absPay, this, hmapeq, hvals, hsv]
+      | none => rw [hg] at this; simp only [absPay, this, hmapeq, hvals, hsv]
+    exact ⟨st.inv, st.val.trans hv, st.ok, st.frame, st.next_le, st.next_ge, st.live⟩
 
 end Nstd.Variant.Deep
